@@ -1,0 +1,55 @@
+//go:build verif
+
+package dastard
+
+// Thin exported access for the C05 (output files) verification harness (/verif/harness/c05.go).
+// Compiled only with `-tags verif`; adds no behaviour to the normal build.
+
+import "gonum.org/v1/gonum/mat"
+
+// VerifPublish hands exported records to the real DataPublisher.PublishData.
+func VerifPublish(dp *DataPublisher, recs []VerifRecord) error {
+	rs := make([]*DataRecord, len(recs))
+	for i, v := range recs {
+		rs[i] = v.record()
+	}
+	return dp.PublishData(rs)
+}
+
+// VerifChannelFacts are the per-channel facts a hardware source learns in Sample/PrepareChannels.
+type VerifChannelFacts struct {
+	Row, Col, Rows, Cols int
+	Name                 string
+	Number               int
+	SubframeOffset       int
+}
+
+// VerifSetFacts overrides the source name, the subframe divisions and the per-channel facts of a
+// prepared scripted source (call after VerifPrepare, before WriteControl).
+func (vs *VerifSource) VerifSetFacts(name string, subframeDivisions int, facts []VerifChannelFacts) {
+	vs.name = name
+	vs.subframeDivisions = subframeDivisions
+	for i, f := range facts {
+		if i >= vs.nchan {
+			break
+		}
+		vs.rowColCodes[i] = rcCode(f.Row, f.Col, f.Rows, f.Cols)
+		vs.chanNames[i] = f.Name
+		vs.chanNumbers[i] = f.Number
+		vs.subframeOffsets[i] = f.SubframeOffset
+		vs.processors[i].Name = f.Name
+	}
+}
+
+// VerifChannelPublisher returns the real DataPublisher of channel ch.
+func (vs *VerifSource) VerifChannelPublisher(ch int) *DataPublisher {
+	return &vs.processors[ch].DataPublisher
+}
+
+// VerifChannelSampleRate returns what writeControlStart derives the time base from.
+func (vs *VerifSource) VerifChannelSampleRate(ch int) float64 { return vs.processors[ch].SampleRate }
+
+// VerifSetProjectors installs projectors and basis on channel ch through the real setter.
+func (vs *VerifSource) VerifSetProjectors(ch int, projectors, basis *mat.Dense, desc string) error {
+	return vs.processors[ch].SetProjectorsBasis(projectors, basis, desc)
+}
